@@ -1202,6 +1202,20 @@ fn static_shapes(src: &str, ast: &Ast, toks: &[Tk]) -> Vec<&'static str> {
             v.push("block_expr_operand");
         }
     }
+    // F-C11-9 (second form): a statement line that starts with `-`: whenever the formatter makes the
+    // expression in front of it multi-line (forced chain break …) the parser reads `-x` as its continuation
+    {
+        let mut prev_code_line: Option<u32> = None;
+        for t in toks.iter() {
+            if matches!(t.token, Token::Whitespace | Token::NewLine | Token::CommentSingle | Token::CommentMulti) {
+                continue;
+            }
+            if prev_code_line != Some(t.line) && t.token == Token::Subtract && prev_code_line.is_some() {
+                v.push("line_starts_with_minus");
+            }
+            prev_code_line = Some(t.eline);
+        }
+    }
     // F-C11-10: a single-line comment whose next code token is a closing bracket / closing `|`, or that
     // sits inside an import item list (after an item's comma)
     for (i, t) in toks.iter().enumerate() {
@@ -1541,6 +1555,7 @@ struct Gen {
     in_loop: u32,
     in_fn: u32,
     no_comment: bool,
+    unicode: bool, // non-ASCII text may appear anywhere (else only on lines without numbers/comments)
 }
 
 const NONASCII_IDS: [&str; 4] = ["é", "名前", "über", "ñandú"];
@@ -1549,9 +1564,10 @@ const STR_PIECES: [&str; 14] =
 
 impl Gen {
     fn new(rng: Rng) -> Gen {
-        let mut g = Gen { rng, out: String::new(), nums: vec![], strs: vec![], lists: vec![], fns: vec![], counter: 0, step: 2, wide: false, in_loop: 0, in_fn: 0, no_comment: false };
+        let mut g = Gen { rng, out: String::new(), nums: vec![], strs: vec![], lists: vec![], fns: vec![], counter: 0, step: 2, wide: false, in_loop: 0, in_fn: 0, no_comment: false, unicode: false };
         g.step = *g.rng.pick(&[2usize, 2, 4, 3, 1]);
         g.wide = g.rng.chance(1, 8);
+        g.unicode = g.rng.chance(1, 5);
         g
     }
     fn fresh(&mut self, p: &str) -> String {
@@ -1703,7 +1719,8 @@ impl Gen {
         let mut s = String::new();
         match self.rng.below(5) {
             0 => {
-                s.push_str(*self.rng.pick(&["_", "*", "0", " ", "é", "x", "<", "-"]));
+                let fill = *self.rng.pick(&["_", "*", "0", " ", "é", "x", "<", "-"]);
+                s.push_str(if self.unicode || fill.is_ascii() { fill } else { "~" });
                 s.push_str(*self.rng.pick(&["<", "^", ">"]));
             }
             1 => s.push_str(*self.rng.pick(&["<", "^", ">"])),
@@ -1729,7 +1746,10 @@ impl Gen {
                 let n = self.rng.below(3);
                 let mut s = String::new();
                 for _ in 0..=n {
-                    s.push_str(*self.rng.pick(&STR_PIECES));
+                    let piece = *self.rng.pick(&STR_PIECES);
+                    if self.unicode || piece.is_ascii() {
+                        s.push_str(piece);
+                    }
                 }
                 let s = s.replace("{{", "\\{");
                 format!("{q}{}{q}", s)
@@ -1739,7 +1759,10 @@ impl Gen {
                 let n = 1 + self.rng.below(3);
                 for _ in 0..n {
                     if self.rng.chance(1, 2) {
-                        s.push_str(*self.rng.pick(&["a ", "=", " x: ", "é ", ""]));
+                        let piece = *self.rng.pick(&["a ", "=", " x: ", "é ", ""]);
+                        if self.unicode || piece.is_ascii() {
+                            s.push_str(piece);
+                        }
                     }
                     let e = if self.rng.chance(1, 5) && !self.strs.is_empty() { self.rng.pick(&self.strs).clone() } else { self.num(d - 1) };
                     let e = e.replace('\'', "\"");
@@ -1756,7 +1779,7 @@ impl Gen {
             2 => {
                 let h = self.rng.below(3);
                 let hs = "#".repeat(h);
-                format!("r{hs}{q}{}{q}{hs}", *self.rng.pick(&["raw", "a\\b", "{x}", "é", ""]))
+                format!("r{hs}{q}{}{q}{hs}", *self.rng.pick(&["raw", "a\\b", "{x}", if self.unicode { "é" } else { "e" }, ""]))
             }
             _ => {
                 let a = self.string(d - 1);
@@ -1793,6 +1816,15 @@ impl Gen {
         }
     }
     fn line(&mut self, ind: usize, text: &str) {
+        // a statement never starts with `-`: the parser reads such a line as the continuation of a
+        // multi-line expression in front of it (excluded shape: F-C11-9)
+        let wrapped;
+        let text = if text.starts_with('-') {
+            wrapped = format!("({})", text);
+            wrapped.as_str()
+        } else {
+            text
+        };
         let trailing = if self.rng.chance(1, 25) { "  " } else { "" };
         let comment = if self.rng.chance(1, 8) && text.is_ascii() && !text.contains('\n') && !self.no_comment {
             format!("{}# {}", self.sp1(), *self.rng.pick(&["note", "c", "trailing comment", "x = 1", "#"]))
@@ -1807,7 +1839,9 @@ impl Gen {
             1 if allow_blank => self.out.push('\n'),
             2 => {
                 let pad = " ".repeat(ind);
-                self.out.push_str(&format!("{pad}# {}\n", *self.rng.pick(&["own-line comment", "é unicode comment", "TODO: x", ""])));
+                let c = *self.rng.pick(&["own-line comment", "é unicode comment", "TODO: x", ""]);
+                // (a comment containing non-ASCII text is itself in the F-C11-3 shape: its end is cut)
+                self.out.push_str(&format!("{pad}# {}\n", if self.unicode || c.is_ascii() { c } else { "ascii comment" }));
             }
             3 => {
                 let pad = " ".repeat(ind);
@@ -1857,7 +1891,7 @@ impl Gen {
                 let v = if reassign && !pool_vec.is_empty() {
                     self.rng.pick(pool_vec).clone()
                 } else {
-                    let base = if pool == 1 && self.rng.chance(1, 6) { (*self.rng.pick(&NONASCII_IDS)).to_string() } else { ["n", "s", "l"][pool].to_string() };
+                    let base = if pool == 1 && self.unicode && self.rng.chance(1, 3) { (*self.rng.pick(&NONASCII_IDS)).to_string() } else { ["n", "s", "l"][pool].to_string() };
                     self.fresh(&base)
                 };
                 let eq = format!("{}={}", self.sp(), self.sp());
@@ -2172,7 +2206,9 @@ impl Gen {
                 let s = *self.rng.pick(&["'ü'", "'字幕'", "\"😀 ok\"", "'e\u{301}'"]);
                 self.out.push_str(&format!("{pad}{v} = {s}\n"));
                 self.out.push_str(&format!("{pad}print {v} + {s}\n"));
-                self.strs.push(v);
+                if self.unicode {
+                    self.strs.push(v);
+                }
             }
         }
     }
@@ -2244,6 +2280,7 @@ const FINDINGS: &[(&str, &str, &[&str])] = &[
     ("F-C11-7", "fmt_skip", &["2:", "3:", "5:"]),
     ("F-C11-8", "comment_after_assign", &["5:idempotence"]),
     ("F-C11-9", "block_expr_operand", &["2:", "3:", "5:"]),
+    ("F-C11-9", "line_starts_with_minus", &["2:", "3:", "5:"]),
     ("F-C11-10", "comment_before_closer", &["2:", "3:", "4:", "5:"]),
     ("F-C11-10", "comment_in_import_list", &["2:", "3:", "4:", "5:"]),
 ];
@@ -2942,6 +2979,9 @@ fn main() {
                 gen_ok += 1;
                 if !shapes.is_empty() {
                     cx.rep.bump("generated_in_excluded_shape");
+                    for s in &shapes {
+                        cx.rep.bump(&format!("generated_shape={}", s));
+                    }
                 }
             }
         }
